@@ -63,6 +63,11 @@ func (acc *DB) execAccountKey(addr, execaddr string) (key []byte) {
 	return key
 }
 
+// sameAccount 判断两个地址是否对应同一个账户记录, 地址按存储key的格式统一后比较(eth地址大小写不敏感)
+func sameAccount(addr1, addr2 string) bool {
+	return addr1 == addr2 || string(address.FormatAddrKey(addr1)) == string(address.FormatAddrKey(addr2))
+}
+
 // TransferToExec transfer coins from address to exec address
 func (acc *DB) TransferToExec(from, to string, amount int64) (*types.Receipt, error) {
 	receipt, err := acc.Transfer(from, to, amount)
@@ -148,7 +153,7 @@ func (acc *DB) ExecActive(addr, execaddr string, amount int64) (*types.Receipt, 
 
 // ExecTransfer 执行转帐
 func (acc *DB) ExecTransfer(from, to, execaddr string, amount int64) (*types.Receipt, error) {
-	if from == to {
+	if sameAccount(from, to) {
 		return nil, types.ErrSendSameToRecv
 	}
 	if !acc.CheckAmount(amount) {
@@ -184,7 +189,7 @@ func (acc *DB) ExecTransfer(from, to, execaddr string, amount int64) (*types.Rec
 
 // ExecTransferFrozen 从自己冻结的钱里面扣除，转移到别人的活动钱包里面去
 func (acc *DB) ExecTransferFrozen(from, to, execaddr string, amount int64) (*types.Receipt, error) {
-	if from == to {
+	if sameAccount(from, to) {
 		return nil, types.ErrSendSameToRecv
 	}
 	if !acc.CheckAmount(amount) {
